@@ -11,7 +11,8 @@ struct Layout {
     spans: Vec<(usize, usize)>,
 }
 
-/// Lay tokens out with known positions. style: 0 = LF, 1 = CRLF, 2 = LF with comments, 3 = CRLF with comments
+/// Lay tokens out with known positions. style: 0 = LF, 1 = CRLF, 2 = LF with comments, 3 = CRLF with comments,
+/// 4 / 5 = like 2 / 3 with non-ASCII text in the comments (positions are byte offsets: a character count would drift)
 fn layout(tokens: &[String], line_ends: &[usize], style: u8, rng: &mut Rng) -> Layout {
     let nl = if style & 1 == 1 { "\r\n" } else { "\n" };
     let mut text = String::new();
@@ -23,11 +24,11 @@ fn layout(tokens: &[String], line_ends: &[usize], style: u8, rng: &mut Rng) -> L
         let next = tokens.get(i + 1).map(|s| s.as_str());
         if line_ends.contains(&(i + 1)) {
             if style >= 2 && rng.chance(1, 3) {
-                text.push_str(" -- trailing comment");
+                text.push_str(if style >= 4 { " -- trailing comment ±5 µs" } else { " -- trailing comment" });
             }
             text.push_str(nl);
             if style >= 2 && rng.chance(1, 6) {
-                text.push_str("-- a comment line");
+                text.push_str(if style >= 4 { "-- a comment line: größer, 中文, €" } else { "-- a comment line" });
                 text.push_str(nl);
             }
             if rng.chance(1, 8) {
@@ -35,7 +36,7 @@ fn layout(tokens: &[String], line_ends: &[usize], style: u8, rng: &mut Rng) -> L
             }
         } else if next == Some(",") || next == Some(";") {
         } else if style >= 2 && rng.chance(1, 40) && t != "..." {
-            text.push_str(" /* c */ ");
+            text.push_str(if style >= 4 { " /* ç */ " } else { " /* c */ " });
         } else {
             text.push(' ');
         }
@@ -222,7 +223,7 @@ fn check_input(seed: u64, idx: u64, tmpdir: &std::path::Path, rep: &mut Report, 
     let r = set.render();
     // line ends from the default rendering: after every extent
     let line_ends: Vec<usize> = r.extents.iter().map(|e| e.3 + 1).collect();
-    let style = (idx % 4) as u8;
+    let style = (idx % 6) as u8;
     // baseline must compile (otherwise the corruption is not the first malformation)
     let lrng = Rng::for_case(seed, 1717, idx);
     let base = layout(&r.tokens, &line_ends, style, &mut lrng.clone());
